@@ -54,13 +54,17 @@ func runC05(w *World, r *Report) {
 		dirs := map[string]bool{}
 		okE := true
 		for _, c := range vd {
-			p := Path(c.Common().Args[0])
-			if strings.HasSuffix(p, ".request") {
-				dirs["request"] = true
-			}
-			if strings.HasSuffix(p, ".response") {
-				dirs["response"] = true
-			}
+			// the argument is (or, for a table of directions that is walked, derives from)
+			// the request / response direction of the flow
+			Derives(c.Common().Args[0], func(x ssa.Value) bool {
+				switch typedField(x) {
+				case "Flow.request":
+					dirs["request"] = true
+				case "Flow.response":
+					dirs["response"] = true
+				}
+				return false
+			})
 			if !errReturned(vf, c) {
 				okE = false
 			}
@@ -323,6 +327,7 @@ func runC05(w *World, r *Report) {
 	c05Detector(w, r)
 	c05OnlyValidatedFlowsLoaded(w, r)
 	c05InternalLimitsAttachedUnderKnownParents(w, r)
+	c05ConnectionEndsNilChecked(w, r)
 	// R8 shared interpreter safety conditions
 	r.Borrow(w, runC04, map[string]string{"R3": "R8", "R6": "R8"})
 	r.Min("R1", 5)
@@ -738,4 +743,39 @@ func c05InternalLimitsAttachedUnderKnownParents(w *World, r *Report) {
 		}
 	})
 	r.Check(ok && n == 1 && apps == 1, "R2", "ToSingleQuotaResourceDataList/limit-known-only-under-a-known-parent", f.Pos(), "an internal limit is registered as a possible parent, and attached to the quota, only on the found edge of the lookup of its own ParentID")
+}
+
+// c05ConnectionEndsNilChecked: in buildConnection the optional ends of a
+// connection (conn.GetTo().GetStream(), GetFlow(), GetFrom()....) are
+// interfaces that are nil when the configuration does not name them; a method
+// is called on one only where utils.IsInterfaceNil of that very accessor chain
+// was false (otherwise a configuration that omits the end crashes the loader).
+func c05ConnectionEndsNilChecked(w *World, r *Report) {
+	bc := w.Fn(pkgFlow, "flowBuilder.buildConnection")
+	if bc == nil {
+		r.Undec("R2", "buildConnection", token.NoPos, "function not found")
+		return
+	}
+	n := 0
+	var bad []string
+	Instrs(bc, func(in ssa.Instruction) {
+		c, ok := in.(*ssa.Call)
+		if !ok || !c.Call.IsInvoke() || c.Call.Method.Name() != "GetAt" {
+			return
+		}
+		n++
+		recv := Path(c.Call.Value)
+		guarded := condsHave(CondsOf(c.Block()), false, func(v ssa.Value) bool {
+			g, isC := peel(v).(*ssa.Call)
+			return isC && isCallTo(g, "utils.IsInterfaceNil") && len(g.Call.Args) == 1 && Path(g.Call.Args[0]) == recv
+		})
+		if !guarded {
+			bad = append(bad, w.Pos(posOf(c))+" "+recv)
+		}
+	})
+	if n < 2 {
+		r.Undec("R2", "buildConnection/ends", bc.Pos(), "expected the GetAt() calls on the optional ends, found %d", n)
+		return
+	}
+	r.Check(len(bad) == 0, "R2", "buildConnection/optional-ends-nil-checked-before-use", bc.Pos(), "GetAt() is called on an optional end of the connection only under !IsInterfaceNil of the same end (%d calls; unguarded: %v)", n, bad)
 }
